@@ -231,7 +231,7 @@ def writeStruct (U : UnicodeOps) (cfg : Cfg) (rs : RustStruct) (st : Imports) : 
 
 structure GoAlias where
   comments : List Str
-  name : Str          -- declared under `acr(id.original)`
+  name : Str          -- declared under `acr(id.renamed)` (since the `fix:` commit b182a80)
   ty : Str
 deriving Repr, Inhabited, DecidableEq
 
@@ -240,7 +240,7 @@ def renderAlias (a : GoAlias) : Str :=
 
 /-- `write_type_alias` (the alias' own generic parameters are dropped) -/
 def aliasFacts (U : UnicodeOps) (cfg : Cfg) (a : RustTypeAlias) (st : Imports) : Outcome (GoAlias × Imports) :=
-  (acr U cfg a.id.original).bind fun name =>
+  (acr U cfg a.id.renamed).bind fun name =>
   (formatType cfg a.ty st).bind fun (ty, st) =>
     .ok ({ comments := a.comments, name, ty }, st)
 
